@@ -22,7 +22,9 @@
    between the quotes: the functions modelled here read them with `decoder().decode` or compare
    them as bytes; the table display name and the column names go through
    `decode_and_unescape_value`, modelled by [unescape] (quick-xml 0.37 escape::unescape_with over
-   the predefined entities).  Strings are
+   the predefined entities); a column name then goes through `unescape_xstring` (the ST_Xstring
+   layer _xHHHH_, fix "xlsx table column names were returned with their _xHHHH_ escapes";
+   model [unescape_xstring], spec [xs_decode], writer [xs_escape]).  Strings are
    byte lists (UTF-8); the zip archive is an association list name -> event list in
    central-directory order (inflate, tokenisation: trusted base).  The xls side starts at the
    list of (type, data) records of a sheet substream (record framing: C02/C12). *)
@@ -388,6 +390,46 @@ Fixpoint unesc_go (s : str) (pend : option str) : outcome str :=
   end.
 Definition unescape (s : str) : outcome str := unesc_go s None.
 
+(* ---------- the ST_Xstring layer of a column name (src/xlsx/mod.rs unescape_xstring) ----------
+   `tableColumn/@name` is an ST_Xstring (ECMA-376 Part 1, 18.5.1.3 / 22.9.2.19) holding the text
+   of the header cell: after the XML unescaping the value goes through unescape_xstring.  The Rust
+   function walks the UTF-8 bytes; where no escape starts it copies one whole character and
+   advances by its length.  A continuation byte (>= 0x80) never equals '_', so copying byte by
+   byte — as below — visits the same escape positions on every valid UTF-8 string (a Rust String
+   is always valid UTF-8). *)
+(* s.contains("_x") *)
+Fixpoint contains_ux (s : str) : bool :=
+  match s with
+  | [] => false
+  | c :: r => ((c =? 95) && match r with x :: _ => x =? 120 | [] => false end) || contains_ux r
+  end.
+(* u8::is_ascii_hexdigit / (h as char).to_digit(16) on such a byte *)
+Definition is_ascii_hexdigit (c : N) : bool :=
+  ((48 <=? c) && (c <=? 57)) || ((65 <=? c) && (c <=? 70)) || ((97 <=? c) && (c <=? 102)).
+Definition to_digit16 (c : N) : N :=
+  if c <=? 57 then c - 48 else if c <=? 70 then c - 55 else c - 87.
+(* one iteration of `while i < b.len()` per call *)
+Fixpoint ux_loop (s : str) : str :=
+  match s with
+  | [] => []
+  | c :: s' =>
+    match s' with
+    | x :: h1 :: h2 :: h3 :: h4 :: u :: r =>
+      (* b[i] == b'_' && i + 7 <= b.len() && b[i + 1] == b'x' && b[i + 6] == b'_' *)
+      if (c =? 95) && (x =? 120) && (u =? 95) then
+        if forallb is_ascii_hexdigit [h1; h2; h3; h4] then
+          let code := fold_left (fun a h => a * 16 + to_digit16 h) [h1; h2; h3; h4] 0 in
+          if is_scalar code                                    (* char::from_u32(code) *)
+          then utf8_enc code ++ ux_loop r                      (* out.push(c); i += 7; continue *)
+          else c :: ux_loop s'
+        else c :: ux_loop s'
+      else c :: ux_loop s'
+    | _ => c :: ux_loop s'
+    end
+  end.
+Definition unescape_xstring (s : str) : str :=
+  if contains_ux s then ux_loop s else s.                      (* if !s.contains("_x") { return s } *)
+
 Record tmeta : Type := mkTmeta {
   tm_name : str; tm_ref : str; tm_header : N; tm_insert : bool; tm_totals : N }.
 Definition tmeta_init : tmeta := mkTmeta [] [] 1 false 0.      (* InnerTableMetadata::new() *)
@@ -411,12 +453,14 @@ Fixpoint table_attrs (m : tmeta) (attrs : list (str * str)) : outcome tmeta :=
   | kv :: t => do m' <- table_attr m kv; table_attrs m' t
   end.
 
-(* every attribute of a tableColumn element whose key is exactly "name", unescaped *)
+(* every attribute of a tableColumn element whose key is exactly "name": unescaped as XML, then
+   as an ST_Xstring (unescape_xstring(a.decode_and_unescape_value(..)?.into_owned())) *)
 Fixpoint column_names (attrs : list (str * str)) : outcome (list str) :=
   match attrs with
   | [] => Ok []
   | kv :: t => if str_eqb (fst kv) s_name
-               then do u <- unescape (snd kv); do r <- column_names t; Ok (u :: r)
+               then do u <- unescape (snd kv); do r <- column_names t;
+                    Ok (unescape_xstring u :: r)
                else column_names t
   end.
 
@@ -648,7 +692,7 @@ Definition xls_worksheet_merge_cells_at (m : list (str * list dims)) (n : nat) :
    0-based (row, column). *)
 Record table_l : Type := mkTable {
   tl_name : str;               (* displayName *)
-  tl_cols : list str;          (* column names, in order *)
+  tl_cols : list str;          (* column names, in order: the texts of the header cells *)
   tl_ref : dims;               (* the whole table: header, data, totals, insert row *)
   tl_header : N;               (* header rows: 0 or 1 *)
   tl_totals : N;               (* totals rows: 0 or 1 *)
@@ -741,6 +785,53 @@ Definition esc_piece (c : N) : piece :=
   if (c =? 38) || (c =? 60) || (c =? 62) || (c =? 34) then PNamed c
   else if lit_ok c then PLit [c] else PDec c 2.
 Definition esc_sp (s : str) : spelling := map esc_piece s.
+
+(* ---------- the ST_Xstring layer (ECMA-376 Part 1, 22.9.2.19) ----------
+   A column name is the text of the header cell, stored as an ST_Xstring: inside the (XML-decoded)
+   attribute value the seven characters _xHHHH_ — lower-case x, exactly four hexadecimal digits of
+   either case — stand for the character with that code.  That is how Excel stores a line break
+   typed with Alt+Enter (a_x000a_b: a literal LF in an attribute would be normalised to a space),
+   CR, and the characters XML 1.0 cannot carry; a literal underscore that would otherwise start
+   an escape is written _x005F_.  One pass from the left; decoded characters are not examined
+   again; an escape naming a surrogate code unit denotes no character and stays as written.
+   S: [xs_decode], over UTF-8 bytes (the decoded character is written in UTF-8). *)
+Definition xs_surrogate (c : N) : bool := (55296 <=? c) && (c <=? 57343).
+Fixpoint xs_decode (s : str) : str :=
+  match s with
+  | [] => []
+  | c :: s' =>
+    match s' with
+    | x :: h1 :: h2 :: h3 :: h4 :: u :: r =>
+      if (c =? 95) && (x =? 120) && (u =? 95) then
+        match hexval h1, hexval h2, hexval h3, hexval h4 with
+        | Some a, Some b, Some d, Some e =>
+          let v := a * 4096 + b * 256 + d * 16 + e in
+          if xs_surrogate v then c :: xs_decode s' else utf8_enc v ++ xs_decode r
+        | _, _, _, _ => c :: xs_decode s'
+        end
+      else c :: xs_decode s'
+    | _ => c :: xs_decode s'
+    end
+  end.
+(* the column name a spelled attribute value declares: the XML layer, then the ST_Xstring layer *)
+Definition col_value (sp : spelling) : str := xs_decode (sp_value sp).
+
+(* E: a writer in the style of Excel / openpyxl, on the bytes of the name: every underscore is
+   written _x005F_ (Excel does so only where an escape would otherwise be read; escaping all of
+   them is legal), the ASCII characters selected by [must] (Excel: the C0 controls; LF and CR in
+   an attribute) are written _x00HH_ with upper- or lower-case digits, everything else — in
+   particular every byte of a non-ASCII character — literally.  Escapes of non-ASCII characters
+   (_x00e9_, _xFFFE_) and partly spelled escapes (_x00&#48;a_) are expressible as spellings; they
+   are covered by [col_value] in [table_choice_legal]. *)
+Definition xs_hexdigit (upper : bool) (d : N) : N :=
+  if d <? 10 then 48 + d else (if upper then 55 else 87) + d.
+Definition xs_esc4 (upper : bool) (c : N) : str :=
+  [95; 120; xs_hexdigit upper (c / 4096); xs_hexdigit upper ((c / 256) mod 16);
+   xs_hexdigit upper ((c / 16) mod 16); xs_hexdigit upper (c mod 16); 95].
+Definition xs_escape (upper : bool) (must : N -> bool) (s : str) : str :=
+  flat_map (fun c => if (c =? 95) || (must c && (c <? 128)) then xs_esc4 upper c else [c]) s.
+(* what Excel escapes in an attribute: C0 controls (TAB, LF and CR included) *)
+Definition xs_excel_must (c : N) : bool := c <? 32.
 
 Inductive ref_style : Type :=
 | RefPair                    (* "A1:B2" (also for a single cell: "A1:A1") *)
@@ -1020,7 +1111,7 @@ Definition table_choice_legal (tc : table_l * table_choice) : bool :=
   match tc_type c with TyRaw _ => false | _ => true end &&
   insert_legal (tl_insert t) (tc_insert c) &&
   sp_legal (tc_name_sp c) && str_eqb (sp_value (tc_name_sp c)) (tl_name t) &&
-  forallb sp_legal (tc_cols_sp c) && strs_eqb (map sp_value (tc_cols_sp c)) (tl_cols t) &&
+  forallb sp_legal (tc_cols_sp c) && strs_eqb (map col_value (tc_cols_sp c)) (tl_cols t) &&
   negb (existsb table_special_key (tc_extra c)) &&
   negb (existsb (key_is s_name) (tc_col_extra c)) &&
   prefix_ok (tc_prefix c) &&
